@@ -118,6 +118,28 @@ def check_invariants(inp):
           if not (leaves_equal(before.cluster_params[k], st.cluster_params[k]) and
                   leaves_equal(before.opt_states[k], st.opt_states[k])):
             return f'hyp: cluster {k} has no client in round {r + 1} but its params / optimizer state changed'
+  elif which == 'hyp_pmap':
+    # the same rounds with the algorithm built under the pmap backend (it returns clients in another order: by decreasing
+    # batch count): every delta still goes to ITS client's cluster with ITS client's weight - same states as under jit
+    from fedjax.core import for_each_client as fec
+    init = [p0(0.0), p0(3.0), p0(-5.0)]
+    ref_alg = hyp_cluster.hyp_cluster(pel, sgd, mom, php, hp)
+    with fec.for_each_client_backend('pmap'):
+      pm_alg = hyp_cluster.hyp_cluster(pel, sgd, mom, php, hp)
+    s_ref, s_pm = ref_alg.init(init), pm_alg.init(init)
+    for r, sizes in enumerate(rounds):
+      cl = clients_for(r, sizes, shift=1.0)
+      s_ref, d_ref = ref_alg.apply(s_ref, cl)
+      s_pm, d_pm = pm_alg.apply(s_pm, cl)
+      if {c: int(d['cluster_id']) for c, d in d_ref.items()} != {c: int(d['cluster_id']) for c, d in d_pm.items()}:
+        return f'hyp under pmap: round {r + 1} assigns clients differently than under jit'
+      for k in range(3):
+        if not all(np.allclose(np.asarray(a), np.asarray(b), rtol=2e-4, atol=2e-5) for a, b in zip(
+            jax.tree_util.tree_leaves(s_ref.cluster_params[k]), jax.tree_util.tree_leaves(s_pm.cluster_params[k]))):
+          return (f'hyp under the pmap backend, round {r + 1} (client sizes {sizes}, listed by increasing batch count): cluster {k} '
+                  f'params {jax.tree_util.tree_map(lambda a: np.asarray(a).tolist(), s_pm.cluster_params[k])} differ from the jit '
+                  f'backend {jax.tree_util.tree_map(lambda a: np.asarray(a).tolist(), s_ref.cluster_params[k])}: deltas reach '
+                  'the wrong cluster / weight when the backend re-orders the clients')
   elif which == 'mimelite':
     bound = inp.get('clip', 0.01)
     alg = mime_lite.mime_lite(pel, optimizers.sgd(0.5), hp, php, 1.0, client_delta_clip_norm=bound)
@@ -208,6 +230,7 @@ def sweep_invariants(tier, seed):
   yield dict(which='apfl', rounds=R, coef=0.0)
   yield dict(which='apfl', rounds=R, coef=0.5, eval=True)
   yield dict(which='hyp', rounds=[[4, 3, 5], [3, 0, 4], [0, 0], [5], [2, 2]])
+  yield dict(which='hyp_pmap', rounds=[[2, 6, 4], [4, 2, 8, 6]])
   yield dict(which='mimelite', rounds=R)
   yield dict(which='mimelite', rounds=R, clip=0.0)
   yield dict(which='mimelite', rounds=R, clip=0.5)
